@@ -86,8 +86,27 @@ def run_cmp(case):
     from skcriteria.agg import RankResult
     from skcriteria.cmp import RanksComparator
     try:
-        rc = RanksComparator([(r["name"], RankResult(r["name"], r["alternatives"], r["values"], {}))
-                              for r in case["ranks"]])
+        pairs = [(r["name"], RankResult(r["name"], r["alternatives"], r["values"], {})) for r in case["ranks"]]
+        # the collection of (name, ranking) pairs in any container a caller may hold it in, one-shot ones included
+        import zlib
+        from skcriteria.cmp import mkrank_cmp
+        h = zlib.crc32(repr([r["name"] for r in case["ranks"]] + case["ranks"][0]["values"]).encode()) % 8
+        if h == 0:
+            rc = RanksComparator(tuple(pairs))
+        elif h == 1:
+            rc = RanksComparator(zip([n for n, _ in pairs], [r for _, r in pairs]))
+        elif h == 2:
+            rc = RanksComparator(p for p in pairs)
+        elif h == 3:
+            rc = RanksComparator(dict(pairs).items())
+        elif h == 4:
+            rc = RanksComparator(map(lambda p: p, pairs))
+        elif h == 5 and len({n for n, _ in pairs}) == len(pairs):
+            rc = mkrank_cmp(*[r for _, r in pairs])
+            if [n for n, _ in rc.ranks] != [n for n, _ in pairs]:
+                rc = RanksComparator(pairs)
+        else:
+            rc = RanksComparator(pairs)
         # the flag in any truthy / falsy spelling a caller may hold it in (a numpy bool from a reduction, 0 / 1)
         u = {True: [True, np.True_, 1], False: [False, np.False_, 0]}[bool(case["untied"])][len(case["ranks"][0]["alternatives"]) % 3]
         if case.get("asked_before"):
